@@ -48,7 +48,7 @@ def body_yields(stmts):
     return any(isinstance(n, (ast.Yield, ast.YieldFrom)) for n in L._walk_no_defs(stmts))
 
 
-def iter_loop(eng, s, it, st, fr, k):
+def iter_loop(eng, s, it, st, fr, k, enum_start=None):
     """``for x in <input iterator>`` cut at the contract's invariant; position k_ counts consumed items."""
     ordinal, spec = L._loop_spec(eng, s, fr)
     pre = f"loop{ordinal}"
@@ -59,7 +59,7 @@ def iter_loop(eng, s, it, st, fr, k):
     inv = lambda s_, kk: L._inv(eng, spec, s_, fr, {"k_": kk, "n_": total})
     eng.oblige_clauses("invariant-init", pre, st, inv(st, z3.IntVal(0)), s)
     target_names = [x.id for x in ast.walk(s.target) if isinstance(x, ast.Name)]
-    sh0 = L.havoc(eng, st, s.body, None, also_names=target_names)
+    sh0 = L.havoc(eng, st, s.body, None, also_names=target_names, ordinal=ordinal)
     kk = eng.fresh("k")
     sh = sh0
     for _, f in L._norm(inv(sh, kk)):
@@ -76,6 +76,8 @@ def iter_loop(eng, s, it, st, fr, k):
         eng.canary(f"{pre}:body-end", s2, s)
     fr_body = fr.with_(brk=lambda s2: k(s2), cont=body_end)
     elem = Opq(z3.Select(seq, pos0 + kk))
+    if enum_start is not None:
+        elem = (z3.simplify(eng.to_int(enum_start) + kk), elem)
     eng.assign(s.target, elem, sh_it, fr, lambda s2: eng.ex(s.body, s2, fr_body, body_end), s)
     se = sh0
     for _, f in L._norm(inv(se, total)):
